@@ -208,18 +208,20 @@ func newVMachine(t rec.TB, r *rec.Rec, prop string, cs *vCase) *vMachine {
 	m.c = world.NewChain(world.Options{Seed: cfg.Seed, NumAccs: cfg.NUsers})
 	c := m.c
 	c.PrepareDefi()
+	for i := range cfg.Assets {
+		a := &cfg.Assets[i]
+		a.ID = c.AddAsset(a.Name, a.Denom, a.DecExp, a.Price, true)
+	}
 	for i := 0; i < cfg.NApps; i++ {
-		id := c.AddApp(fmt.Sprintf("app%c", 'a'+i))
+		// the collector's secondary asset (asset 0 here) has to be a genesis-minting token of the app,
+		// as the contract-side query that precedes the privileged binding demands
+		id := c.AddAppWithGenesisToken(fmt.Sprintf("app%c", 'a'+i), cfg.Assets[0].ID, c.Accs[0].Addr.String())
 		m.apps = append(m.apps, id)
 		if cfg.InterestOn[i] {
 			if err := c.App.Rewardskeeper.WhitelistAppIDVault(c.Ctx, id); err != nil {
 				panic(err)
 			}
 		}
-	}
-	for i := range cfg.Assets {
-		a := &cfg.Assets[i]
-		a.ID = c.AddAsset(a.Name, a.Denom, a.DecExp, a.Price, true)
 	}
 	for i := range cfg.Products {
 		p := &cfg.Products[i]
